@@ -116,7 +116,12 @@ pub fn run_history(
     st: &mut Stats,
 ) -> Result<(), String> {
     SCRATCH.with(|sc| {
-        let ids: Vec<PathBuf> = (0..nids).map(|i| sc.dir.join(format!("f{i}.aidl"))).collect();
+        // ids are deliberately NOT in canonical form (".." component): the result must be keyed
+        // and tagged by the path as given
+        let _ = std::fs::create_dir_all(sc.dir.join("sub"));
+        let ids: Vec<PathBuf> = (0..nids)
+            .map(|i| if i % 2 == 0 { sc.dir.join("sub").join("..").join(format!("f{i}.aidl")) } else { sc.dir.join(format!("f{i}.aidl")) })
+            .collect();
         let mut state: Vec<Option<usize>> = vec![None; nids];
         let mut model: BTreeMap<PathBuf, String> = BTreeMap::new();
         let mut parser: Parser<PathBuf> = Parser::new();
